@@ -155,6 +155,8 @@ package orefafs
 //@   ensures[C05] dom(vfs.nodes, absPath) && vfs.nodes[absPath] == r0 && dom(parent.children, fileName) && parent.children[fileName] == r0
 //@ func (*node).remove
 //@   requires[C08] wheld(nd.mu)
+//@   requires nd.nlink > -9223372036854775807
+//@   ensures[C05] nd.nlink == old(nd.nlink) - 1
 //@   modifies nd.children, nd.nlink, nd.data
 
 //@ func (*node).dirNames
@@ -186,6 +188,9 @@ package orefafs
 //@ func (*OrefaFS).removeAll
 //@   ranges
 //@   requires[C08] wheld(vfs.mu) && rootNode != nil
+//@   requires rootNode.nlink > -9223372036854775807
+// a file removed with its directory loses one link (its other names keep an exact count)
+//@   ensures[C05] old(rootNode.mode)&fs.ModeDir == 0 ==> rootNode.nlink == old(rootNode.nlink) - 1
 
 // The walks towards the first existing ancestor terminate: every step shortens the path
 // (a path on a missing volume used to spin forever on the empty string).
